@@ -32,12 +32,13 @@ from __future__ import annotations
 import contextlib
 import io
 import json
-import multiprocessing
 import random
 import re as _pyre
 import signal
 import time
 from typing import Any, Dict, List, Optional, Tuple
+
+from bounded.c05_hardpool import run_tasks
 
 MODULE = "checks.bounded_C05"
 
@@ -1277,42 +1278,64 @@ def run(rep, tier, seed):
     fast = [t for t in tasks if not is_slow(t)]
     chunks = [[t] for t in slow] + [fast[i:i + chunk] for i in range(0, len(fast), chunk)]
     counters: Dict[str, Dict[str, int]] = {}
-    samples = 0
+    state = {"samples": 0}
     t0 = time.time()
-    deadline = t0 + (1500 if tier == "thorough" else 400)
-    ctx = multiprocessing.get_context("fork")
-    pool = ctx.Pool(16, initializer=_quiet_worker)
-    try:
-        it = pool.imap(work_chunk, chunks)
-        for ci in range(len(chunks)):
-            try:
-                recs = it.next(timeout=max(5.0, deadline - time.time()))
-            except multiprocessing.TimeoutError:
-                rep.note_inconclusive(f"global watchdog: {len(chunks) - ci} of {len(chunks)} chunks not evaluated")
-                break
-            for rec in recs:
-                fam = rec["fam"] + "/" + rec["ch"]
-                c = counters.setdefault(fam, {})
-                c[rec["st"]] = c.get(rec["st"], 0) + 1
-                st = rec["st"]
-                if rec.get("pd"):
-                    c["parsed-atom-differs-from-intended"] = c.get("parsed-atom-differs-from-intended", 0) + 1
-                if st in ("inexpressible", "unbuildable"):
-                    continue
-                sample = None
-                if samples < 12 and (st != "ok" or c.get("ok", 0) % 997 == 1):
-                    sample = {"case": rec["k"], "z3": rec.get("exp"), "status": st}
-                    samples += 1
-                rep.case(key=rec["k"], nontrivial=rec.get("nt", True), sample=sample)
-                if st == "inconclusive":
-                    rep.note_inconclusive(rec["k"] + ": " + str(rec.get("detail")))
-                elif st.startswith("violation"):
-                    rep.violation(rec["sig"], rec["what"],
-                                  {"module": MODULE,
-                                   "case": {"channel": rec["ch"], "atom": rec["min"], "found_in": rec["atom"]}})
-    finally:
-        pool.terminate()
-        pool.join()
+    deadline = t0 + (2400 if tier == "thorough" else 900)   # safety net for an overloaded machine only
+
+    def absorb(recs):
+        for rec in recs:
+            fam = rec["fam"] + "/" + rec["ch"]
+            c = counters.setdefault(fam, {})
+            c[rec["st"]] = c.get(rec["st"], 0) + 1
+            st = rec["st"]
+            if rec.get("pd"):
+                c["parsed-atom-differs-from-intended"] = c.get("parsed-atom-differs-from-intended", 0) + 1
+            if st in ("inexpressible", "unbuildable"):
+                continue
+            sample = None
+            if state["samples"] < 12 and (st != "ok" or c.get("ok", 0) % 997 == 1):
+                sample = {"case": rec["k"], "z3": rec.get("exp"), "status": st}
+                state["samples"] += 1
+            rep.case(key=rec["k"], nontrivial=rec.get("nt", True), sample=sample)
+            if st == "inconclusive":
+                rep.note_inconclusive(rec["k"] + ": " + str(rec.get("detail")))
+            elif st.startswith("violation"):
+                rep.violation(rec["sig"], rec["what"],
+                              {"module": MODULE,
+                               "case": {"channel": rec["ch"], "atom": rec["min"], "found_in": rec["atom"]}})
+
+    def task_text(t) -> str:
+        return (show(t[1]) if t[0] != "regex" else "str.in_re " + json.dumps(t[1][1]) + " " + show(t[1][0]))[:300]
+
+    # pass 1: chunks under a hard limit (a worker stuck inside Z3 is killed);
+    # pass 2: the tasks of killed chunks one by one (regex tasks one subject at a time)
+    redo: List[Any] = []
+    skipped = 0
+    for ci, (status, val) in run_tasks(work_chunk, chunks, 16, 300.0 if THOROUGH else 200.0, _quiet_worker, deadline):
+        if status == "ok":
+            absorb(val)
+        elif status == "timeout":
+            for t in chunks[ci]:
+                if t[0] == "regex":
+                    redo += [("regex", (t[1][0], [sj]), t[2], t[3]) for sj in t[1][1]]
+                else:
+                    redo.append(t)
+        elif status == "skipped":
+            skipped += 1
+        else:
+            rep.checker_error(f"worker failed on chunk {ci}: {val}")
+    if skipped:
+        rep.note_inconclusive(f"global watchdog: {skipped} of {len(chunks)} chunks not evaluated")
+    hard = 0
+    for ti, (status, val) in run_tasks(work, redo, 16, 60.0, _quiet_worker, deadline + 200):
+        if status == "ok":
+            absorb(val)
+        elif status in ("timeout", "skipped"):
+            hard += 1
+            rep.note_inconclusive("hard watchdog (a Z3 call of the oracle or of ISLa did not return within 60 s): " + task_text(redo[ti]))
+        else:
+            rep.checker_error(f"worker failed on {task_text(redo[ti])}: {val}")
+    rep.section("watchdog", tasks_rerun_one_by_one_after_a_killed_chunk=len(redo), tasks_without_answer=hard)
     for fam, c in sorted(counters.items()):
         rep.section(fam, **c)
     # anti-vacuity
